@@ -23,7 +23,7 @@ ASSUMPTIONS = [
     "only set commands are sent (other commands: C12); value requests from nodes are part of the traffic (their reply is a set line too)",
 ]
 DELETABLE = ("ops",)
-ASPECTS = frozenset({"writes"})
+ASPECTS = frozenset({"writes", "sleepflag"})  # which nodes are known to be sleeping is part of this property's vocabulary
 
 
 def budgets(tier: str) -> dict:
@@ -52,9 +52,9 @@ def _ops(version: str):
         st.builds(lambda n, c, t: ["rx", f"{n};{c};2;0;{t};\n"], node, child, vtype),
         st.builds(lambda n: ["rx", f"{n};255;3;0;18;\n"], node),
         st.builds(lambda n: ["rx", f"{n};255;3;0;33;\n"], node),
-        st.builds(lambda n: ["rx", f"{n};255;0;0;17;2.0\n"], node),
+        st.builds(lambda n, t: ["rx", f"{n};255;0;0;{t};2.0\n"], node, st.sampled_from((17, 18))),
         st.builds(lambda n, c: ["rx", f"{n};{c};0;0;3;relay\n"], node, child),
-        st.sampled_from((["rx", "0;255;3;0;9;log\n"], ["rx", "0;255;3;0;2;2.2.0\n"], ["rx", "0;255;3;0;2;2.0.1\n"], ["rx", "junk\n"])),
+        st.sampled_from((["rx", "0;255;3;0;9;log\n"], ["rx", "0;255;3;0;2;2.2.0\n"], ["rx", "0;255;3;0;2;2.0.1\n"], ["rx", "junk\n"], ["session"], ["session"])),
     )
     incoming = gen.with_ack(st.builds(lambda n, c, t, v: f"{n};{c};1;0;{t};{v}\n", node, child, vtype, value)).map(lambda l: ["rx", l])
     free = st.lists(gen.weighted((4, send), (2, wake), (2, incoming), (1, other)), min_size=8, max_size=30)
@@ -91,7 +91,7 @@ def _registry(draw) -> dict:
             for c in draw(st.sampled_from(((1, 2, 12), (1, 12), (1,), ())))
         }
         reg[str(node)] = {
-            "node_id": node, "node_type": 17, "protocol_version": "2.0", "sketch_name": "", "sketch_version": "",
+            "node_id": node, "node_type": draw(st.sampled_from((17, 18, 18, 0))), "protocol_version": draw(st.sampled_from(("2.0", "2.2.0", "1.4", ""))), "sketch_name": "", "sketch_version": "",
             "battery_level": 0, "heartbeat": 0, "sleeping": draw(st.sampled_from((True, True, True, False))), "children": children,
         }
     return reg
